@@ -27,6 +27,7 @@ META = {
 META["claim"] += " " + 'Also: timeouts (single, double, pairs) before each of the first 16 bytes of frames with 16- and 64-bit lengths; the EAGAIN/SSLWantRead branch of the transport read at every byte position (spurious, and followed by a real gap); non-blocking sockets (timeout 0) with would-block retried; and, on real TLS over loopback, frames sharing a TLS record with the handshake response / a record ending inside a frame.'
 META["claim"] += " " + 'Round 3b: payloads of 16385 / 40000 / 65536 bytes with timeouts and would-block after the first chunk(s).'
 META["claim"] += " " + 'Round 4: non-blocking runs also over a TLS transport (SSLWantReadError instead of EAGAIN); EAGAIN runs in a process holding more than 1024 descriptors; ambient conditions drawn per connection.'
+META["claim"] += " " + "Round 5: timeouts after the client's own send_close() (it keeps receiving); two connections read by two threads with descriptors non-blocking at the OS level."
 
 CALLS = [("recv", False), ("recv_data_frame", True), ("recv_data", False), ("recv_data_frame", False), ("recv_frame", False)]
 
